@@ -63,6 +63,10 @@ CLAIMED = {
   "the world is built through the management API with hostile stream titles, licence URLs, multi-period titles and period ids (only what the service accepts and persists); players request all 9 templates in every mode they support, single- and multi-period, plus patches, with hostile query values, unknown parameters and hostile Host headers, while the clock sits on values that stress derived lexical forms; every 200 response must parse with lxml, have the same element skeleton as the corresponding response of a twin run in which each hostile string is replaced by a benign placeholder (determinism aligns the two response sequences index by index), and satisfy structural rules written from ISO/IEC 23009-1 (required attributes per MPD@type, lexical validity and sign of xs:duration / xs:dateTime / unsignedInt attributes, id uniqueness per scope, no empty AdaptationSet, template identifiers)",
   "vehicle property: sampled input space; streams offer clear and encrypted variants of each track (encrypted-only streams are C16/C17 territory)",
   TECH + "twin-run skeleton comparison + structural rule set"),
+ "C07": ("exploration",
+  "for every manifest response of the simulated players (all templates and modes, rich option vectors incl. licence URLs with reserved characters, DRM location subsets, event schedules, error/corruption injection, bug compatibility) the harness captures the OptionsContainer the manifest request resolved (ManifestContext.__init__ wrapped from outside) and feeds the query string of every AdaptationSet's initialization/media URL, read from the XML text as a client sees it, to the server's own option parser under the same stream defaults: every option whose usage includes that media type must compare equal, options whose usage excludes it must be absent; the URL round trip from_string(query-decode(to_string(v))) == v is evaluated for the values that flow; clients with other option vectors are interleaved and the server restarted (process-global option defaults)",
+  "vehicle property: sampled; error/corruption options are rewritten to segment numbers by design and only checked for parseability; the round-trip identity over all values of all types is a pure function and is only evaluated for values that occur",
+  TECH + "captured-options vs parsed-URL comparison on every manifest"),
 }
 
 PENDING_REASON = "check not built yet in this session (planned, see DESIGN.md build order); not claimed until its simulation exists"
